@@ -144,6 +144,8 @@ def judge_history(case, out):
                 sp.fifo = newf
             elif a[0] == "f":
                 n = int(res[0]); nd = int(res[1])
+                if len(res) > 2 and res[2].startswith("TOOK"):
+                    e.append("write_from_fd took %s bytes from the descriptor but accounts for %d: the rest is neither stored nor reported as dropped" % (res[2][4:], max(n, 0)))
                 # the delivered bytes: the first n bytes of the concatenated available data before the first E / X boundary rules
                 avail = b""
                 for it in (a[2].split("/") if len(a) > 2 and a[2] else []):
